@@ -378,6 +378,10 @@ def wait_threads(filtered, nframes, prior, preempt=0):
         sx.reach("threads-entry")
     else:
         sx.reach("threads-none")
+    if not filtered:
+        # a caller that was woken by the arrival of a frame is handed an entry (no filter: any entry qualifies)
+        woken = any(w is True for w in sched.main.wait_results)
+        sx.prove(res is not None or not woken, "a waiter woken by a frame was handed nothing", "C16/threads/woken-none")
     sx.prove(len(cons.log) == nframes + (1 if prior else 0), "log complete after the feeder finished",
              "C16/threads/log")
 
@@ -569,6 +573,12 @@ def jobs(tier):
         for nf in (1, 2):
             for prior in (0, 1):
                 out.append(dict(func="wait_threads", params=dict(filtered=filtered, nframes=nf, prior=prior)))
+                # the same with one preemption placed at any source line of canopen code
+                out.append(dict(func="wait_threads", params=dict(filtered=filtered, nframes=nf, prior=prior, preempt=1),
+                                weight=200 * nf))
+    if tier == "thorough":
+        for filtered in (False, True):
+            out.append(dict(func="two_waiters", params=dict(filtered=filtered, preempt=1), weight=12000))
     for filtered in (False, True):
         for p in pats:
             out.append(dict(func="wait", params=dict(filtered=filtered, pattern=list(p))))
